@@ -34,6 +34,7 @@ DEFAULT = dict(
     sl_dist=(3, 7), tp_dist=(2, 6), max_exit_rows=2, exits_in='go',          # 'go' | 'on_open' | 'mixed' | 'none'
     p_cancel=0.4, p_edit=0.15, p_liq=0.03, p_edit_reduced=0.4, p_edit_increased=0.3, p_edit_entry=0.0,
     p_wrong_side=0.0, p_oversize=0.0, oversize_sl=False, edit_offsets=None,
+    resize_always=False,      # exits re-declared for the current position size after every increase / reduction
 )
 
 
@@ -147,7 +148,9 @@ def make_strategy(policy, log):
         def on_increased_position(self, order):
             r = self._r('on_inc')
             log(self, 'hook', 'inc', order)
-            if r.random() < P['p_edit_increased'] and self.position.qty != 0:
+            if P['resize_always'] and self.position.qty != 0:
+                self._set_exits(r, 1 if self.position.qty > 0 else -1, abs(self.position.qty), 'both')
+            elif r.random() < P['p_edit_increased'] and self.position.qty != 0:
                 sign = 1 if self.position.qty > 0 else -1
                 self._set_exits(r, sign, abs(self.position.qty), r.choice(['sl', 'tp', 'both']))
             self._decl('on_increased_position')
@@ -155,7 +158,9 @@ def make_strategy(policy, log):
         def on_reduced_position(self, order):
             r = self._r('on_reduced')
             log(self, 'hook', 'red', order)
-            if r.random() < P['p_edit_reduced'] and self.position.qty != 0:
+            if P['resize_always'] and self.position.qty != 0:
+                self._set_exits(r, 1 if self.position.qty > 0 else -1, abs(self.position.qty), 'both')
+            elif r.random() < P['p_edit_reduced'] and self.position.qty != 0:
                 sign = 1 if self.position.qty > 0 else -1
                 if r.random() < 0.5:        # stop moved to (about) break-even for what is left
                     be = round(self.position.entry_price / tick) * tick          # lattice point next to the average entry
@@ -421,7 +426,9 @@ def gen_items(seed, count, kinds, n_minutes=240):
        ladder - price 100: multi-point entries, partial take-profits, moved stops, liquidate(), frequent edits
        wrong  - exits on the wrong side of the entry (market replacement) incl. oversize rows
        over   - full-size stop next to partial take-profits (oversize reduce-only fills)
-       two    - two symbols"""
+       two    - two symbols
+       sized  - exits re-declared for the current position size in every position hook (never oversize)
+       tf5 / fast / spot - 5m trading route / fast simulator / spot account"""
     rng = random.Random(seed)
     items = []
     for j in range(count):
@@ -450,6 +457,9 @@ def gen_items(seed, count, kinds, n_minutes=240):
             it.update(nsym=2)
         elif kind == 'half':
             pol.update(base=200, tick=0.5, qtys=(1, 2, 4), max_entry_rows=2, max_exit_rows=3, exits_in='mixed', p_edit=0.2)
+        elif kind == 'sized':      # exits always sized to the open position (no oversize reduce-only fills, no wrong side)
+            pol.update(base=100, tick=1.0, qtys=(1, 2, 3), max_entry_rows=rng.choice([2, 3]), max_exit_rows=rng.choice([2, 3]),
+                       exits_in='on_open', resize_always=True, p_edit=0.25, p_liq=0.04, entry_offsets=(0, 0, -1, -2, 1, 2))
         elif kind == 'tf5':        # 5m trading route: several fills between two strategy steps
             pol.update(base=100, tick=1.0, qtys=(1, 2), max_entry_rows=3, max_exit_rows=3, exits_in=rng.choice(['go', 'on_open', 'mixed']),
                        p_edit=0.3, p_edit_reduced=0.5, p_edit_increased=0.5, entry_every=rng.choice([3, 4, 5]), long_phase=1, short_phase=2,
